@@ -17,10 +17,13 @@ import (
 	"sync"
 	"time"
 
+	"github.com/go-openapi/errors"
 	"github.com/go-openapi/loads"
 	"github.com/go-openapi/runtime"
 	"github.com/go-openapi/runtime/middleware"
 	"github.com/go-openapi/runtime/middleware/untyped"
+	"github.com/go-openapi/spec"
+	"github.com/go-openapi/strfmt"
 
 	"verifharness/internal/drv"
 	"verifharness/internal/trace"
@@ -112,13 +115,27 @@ func build(d M) (*built, error) {
 	if err != nil {
 		return nil, err
 	}
+	defConsumes := ""
+	if def := drv.List(d["default"]); len(def) > 0 {
+		defConsumes = mtFrom(def[0]).String()
+	}
+	if drv.Str(d["api"]) == "generated" {
+		// the kind of API a generated server registers: consumers / producers are picked by a switch on the exact
+		// media type, the operation handler runs the typed flow (BindValidRequest with a binder, then Respond)
+		b := &built{}
+		g := &genAPI{b: b, consumers: map[string]runtime.Consumer{}, producers: map[string]runtime.Producer{runtime.JSONMime: runtime.JSONProducer()},
+			defConsumes: defConsumes, defProduces: runtime.JSONMime}
+		for _, r := range drv.List(d["registry"]) {
+			g.consumers[mtFrom(r).String()] = probeConsumer(mtFrom(r))
+		}
+		b.ctx = middleware.NewRoutableContext(ld, g, nil)
+		b.handler = b.ctx.RoutesHandler(nil)
+		return b, nil
+	}
 	api := untyped.NewAPI(ld).WithoutJSONDefaults()
 	api.DefaultProduces = runtime.JSONMime
 	api.RegisterProducer(runtime.JSONMime, runtime.JSONProducer())
-	api.DefaultConsumes = ""
-	if def := drv.List(d["default"]); len(def) > 0 {
-		api.DefaultConsumes = mtFrom(def[0]).String()
-	}
+	api.DefaultConsumes = defConsumes
 	for _, r := range drv.List(d["registry"]) {
 		api.RegisterConsumer(mtFrom(r).String(), probeConsumer(mtFrom(r)))
 	}
@@ -133,6 +150,59 @@ func build(d M) (*built, error) {
 	ctx := middleware.NewContext(ld, api, nil)
 	return &built{ctx: ctx, handler: ctx.RoutesHandler(nil)}, nil
 }
+
+// genAPI is a hand-written middleware.RoutableAPI in the style go-swagger generates
+type genAPI struct {
+	b                        *built
+	consumers                map[string]runtime.Consumer
+	producers                map[string]runtime.Producer
+	defConsumes, defProduces string
+}
+
+func (g *genAPI) HandlerFor(method, path string) (http.Handler, bool) {
+	if path != "/op" {
+		return nil, false
+	}
+	for _, m := range methods {
+		if strings.EqualFold(m, method) {
+			return http.HandlerFunc(func(rw http.ResponseWriter, r *http.Request) { serveTyped(g.b, rw, r) }), true
+		}
+	}
+	return nil, false
+}
+
+func (g *genAPI) ServeErrorFor(string) func(http.ResponseWriter, *http.Request, error) {
+	return errors.ServeError
+}
+
+// ConsumersFor: `switch mt { case "a/x": result["a/x"] = o.AxConsumer ... }` - exact media types only
+func (g *genAPI) ConsumersFor(mediaTypes []string) map[string]runtime.Consumer {
+	result := map[string]runtime.Consumer{}
+	for _, mt := range mediaTypes {
+		if c, ok := g.consumers[mt]; ok {
+			result[mt] = c
+		}
+	}
+	return result
+}
+
+func (g *genAPI) ProducersFor(mediaTypes []string) map[string]runtime.Producer {
+	result := map[string]runtime.Producer{}
+	for _, mt := range mediaTypes {
+		if p, ok := g.producers[mt]; ok {
+			result[mt] = p
+		}
+	}
+	return result
+}
+
+func (g *genAPI) AuthenticatorsFor(map[string]spec.SecurityScheme) map[string]runtime.Authenticator {
+	return nil
+}
+func (g *genAPI) Authorizer() runtime.Authorizer { return nil }
+func (g *genAPI) Formats() strfmt.Registry       { return strfmt.Default }
+func (g *genAPI) DefaultProduces() string        { return g.defProduces }
+func (g *genAPI) DefaultConsumes() string        { return g.defConsumes }
 
 // ---- requests ---------------------------------------------------------------
 
@@ -515,7 +585,7 @@ func descriptor(consumes []entry, def *mt, registry []mt, where string) M {
 	for _, r := range registry {
 		rg = append(rg, r.JSON())
 	}
-	return M{"consumes": cs, "default": df, "registry": rg, "where": where, "exhaustive": false, "wire": false, "rot": 0, "nmethods": 3, "reqs": []M{}}
+	return M{"consumes": cs, "default": df, "registry": rg, "where": where, "api": "untyped", "exhaustive": false, "wire": false, "rot": 0, "nmethods": 3, "reqs": []M{}}
 }
 
 func lists(pool []entry, max int) [][]entry {
@@ -554,6 +624,9 @@ func generate(c *drv.Ctx) {
 			for _, rg := range registries {
 				d := descriptor(l, df, rg, []string{"op", "global"}[idx%2])
 				d["exhaustive"] = true
+				if idx%3 == 2 {
+					d["api"] = "generated" // a RoutableAPI with exact-match ConsumersFor through NewRoutableContext
+				}
 				d["wire"] = (thorough && idx%2 == 0) || idx%4 == 0
 				d["rot"] = idx
 				c.Case(d)
@@ -583,6 +656,9 @@ func generate(c *drv.Ctx) {
 			}
 		}
 		d := descriptor(l, defaults[c.Rng.Intn(3)], rg, []string{"op", "global"}[c.Rng.Intn(2)])
+		if c.Rng.Intn(3) == 0 {
+			d["api"] = "generated"
+		}
 		reqs := []M{}
 		for k := 0; k < 40; k++ {
 			var h header
